@@ -346,7 +346,7 @@ func (a *AwsSim) SetDesiredCapacity(in *autoscaling.SetDesiredCapacityInput) (*a
 	name := awsapi.StringValue(in.AutoScalingGroupName)
 	v := awsapi.Int64Value(in.DesiredCapacity)
 	g, ok := a.asgs[name]
-	if fail || !ok || v < g.Min || v > g.Max {
+	if fail || !ok || g.Gone || v < g.Min || v > g.Max {
 		a.rec.record(cSetDesired(name, v), false, rFail())
 		return nil, a.rec.awsErr()
 	}
@@ -391,7 +391,7 @@ func (a *AwsSim) AttachInstances(in *autoscaling.AttachInstancesInput) (*autosca
 		ids = append(ids, awsapi.StringValue(p))
 	}
 	g, ok := a.asgs[name]
-	bad := fail || !ok || len(ids) > 20
+	bad := fail || !ok || g.Gone || len(ids) > 20
 	if !bad {
 		for _, id := range ids {
 			if !a.ec2.pending[id] {
